@@ -54,7 +54,13 @@ class Parser:
             field_name = field["name"]
             production.insert(0, FieldStart(field_name))
 
-            if schema_name is not None and schema_name in field["type"]:
+            field_type = field["type"]
+            if isinstance(field_type, list):
+                refers_to_itself = schema_name in field_type
+            else:
+                # Not a substring of another name, nor a key of a dict schema
+                refers_to_itself = field_type == schema_name
+            if schema_name is not None and refers_to_itself:
                 # this meanns a recursive relationship, so we force a `null`
                 internal_record = Sequence(
                     Alternative([Null()], ["null"], default=None), Union()
